@@ -144,7 +144,9 @@ pub mod c17 {
         // a second record follows, so that a lengthened record may still lie below the flushed offset
         let (o2, l2) = w.append(&h, &d[..n]).unwrap();
         w.sync().unwrap();
-        let bit: usize = kani::any();
+        // a one-element range makes the flipped bit a shape parameter (concrete corrupted length: needed for
+        // the Reader paths, whose buffer loops would otherwise be unrolled for a symbolic length)
+        let bit: usize = if hi == lo + 1 { lo } else { kani::any() };
         kani::assume(bit >= lo && bit < hi);
         corrupt(o, 0, 4, bit / 8, 1u64 << (bit % 8));
         assert!(!read_is_ok::<H>(path, &fl, o), "record with one flipped length bit returned as valid");
@@ -152,7 +154,7 @@ pub mod c17 {
     }
 
     /// a burst error of up to 32 bits inside crc | header | data is detected
-    pub fn burst_body<const H: usize>(n: usize, start: u64, path: u8) {
+    pub fn burst_body<const H: usize>(n: usize, start: u64, path: u8, straddle: bool) {
         let mut w = Writer::<H>::verif_new(fmodel::fake_file(), SEG, start);
         let fl = w.flushed_offset();
         let d = any_bytes();
@@ -163,6 +165,9 @@ pub mod c17 {
         let pat: u32 = kani::any(); // which of the following 32 bits flip
         kani::assume(s >= 32 && s < 8 * l);
         kani::assume(pat & 1 == 1); // the burst starts at s
+        // straddle = the burst starts inside the stored CRC field (bits 32..64) - it may reach into the payload;
+        // otherwise it lies entirely inside header|data, where CRC-32 guarantees detection
+        if straddle { kani::assume(s < 64); } else { kani::assume(s >= 64); }
         // bits beyond the record end fall outside it (they hit whatever follows) and are dropped
         let v = (pat as u64) << (s % 8);
         corrupt(o, 4, l, s / 8, v);
@@ -172,14 +177,15 @@ pub mod c17 {
     }
 
     /// a record of which only a strict prefix is visible is never returned
-    pub fn truncated<const H: usize>(n: usize, start: u64, path: u8) {
+    pub fn truncated<const H: usize>(n: usize, start: u64, path: u8, cut: i64) {
         let mut w = Writer::<H>::verif_new(fmodel::fake_file(), SEG, start);
         let fl = w.flushed_offset();
         let d = any_bytes();
         let h: [u8; H] = kani::any();
         let (o, l) = w.append(&h, &d[..n]).unwrap();
         w.sync().unwrap();
-        let vis: u64 = kani::any();
+        // cut >= 0: the visible length is a shape parameter (o + cut); cut < 0: symbolic
+        let vis: u64 = if cut >= 0 { o + cut as u64 } else { kani::any() };
         kani::assume(vis >= o && vis < o + l as u64);
         fl.verif_set(vis);
         assert!(!read_is_ok::<H>(path, &fl, o), "truncated record returned as valid");
